@@ -48,7 +48,7 @@ def extract(repo):
 def cases(rng, tier):
     n = 260 if tier == 'quick' else 7000
     k = 3 if tier == 'quick' else 5
-    fns = L.user_fns(L.FN_NAMES)
+    fns = L.spec_fns(L.FN_NAMES)
     for _ in range(n):
         schema = L.gen_schema(rng, signing=True)
         spec = L.Spec(schema, fns)
@@ -57,7 +57,7 @@ def cases(rng, tier):
         asym = L.asym_variant(rng, schema) if rng.random() < 0.1 else None
         if asym is not None:
             # an argument-order-sensitive user function (unknown to the Lean model): judged by the oracle only
-            schema, spec = asym, L.Spec(asym, L.user_fns(L.FN_NAMES + ['$first']))
+            schema, spec = asym, L.Spec(asym, L.spec_fns(L.FN_NAMES + ['$first']))
         names = L.gen_sign_names(rng, schema, spec, k)
         for nm in L.gen_names(rng, schema, spec, k, maxlen=4 if tier == 'quick' else 5):
             if nm not in names:
